@@ -9,10 +9,13 @@ history / prefix.  `grows n t` is `recursive_iter()`.  Helper lemmas live in
 Invariants used (all proved to be kept by `insert`, `merge`, `new_from` from `default()`):
 * `Wf sk n d t`   — keys of a node are distinct, rows under the child for key `k` of a node
                     at depth `d'` carry `k` in column `d'`, hash-set leaves are duplicate-free;
-* `Good n d t`    — `Wf` for hash-set storage + no present-but-empty child + no `forced` leaf.
-Comparison (`==`, `partial_cmp`) agrees with the set of rows only under `Good`; the join
-bimorphisms do **not** keep `Good` (finding F7) and `force_drain` does not either (F22):
-see the `_refuted` theorems at the end.
+* `Good n d t`    — `Wf` for hash-set storage + no present-but-empty child + no `forced` leaf
+                    (only the exactness of merge's `changed` flag needs it).
+Comparison (`==`, `partial_cmp`) agrees with the set of rows for every well-formed hash-set trie.
+That is a statement about the code after /repo `fix: GHT ==/partial_cmp …`: as shipped, `==` and
+`partial_cmp` counted present-but-empty children, which the join bimorphisms and the COLT cursor
+create (finding F7), and the derived `PartialEq` of a leaf compared the COLT flag `forced` (F22) —
+see the `_refuted_before_fix` theorems at the end, stated on the `*BeforeFix` definitions.
 -/
 import HvGht.Lemmas.Compare
 import HvGht.Lemmas.Cmp
@@ -101,7 +104,7 @@ theorem merge_changed_iff (n d : Nat) (a b : Ght n) (ga : Good n d a) (gb : Good
 
 /-! ## comparison -/
 
-/-- the invariant needed for comparison is established by `default()`/`new_from` and kept by
+/-- the invariant needed for the `changed` flag is established by `default()`/`new_from` and kept by
 `insert` and `merge` -/
 theorem good_default (n d : Nat) : Good n d (gempty n) := aux_good_empty n d
 theorem good_new_from (n d : Nat) (xs : List Row) : Good n d (gnewFrom .set n d xs) := aux_good_newFrom n d xs
@@ -110,17 +113,43 @@ theorem good_insert (n d : Nat) (t : Ght n) (row : Row) (h : Good n d t) :
 theorem good_merge (n d : Nat) (a b : Ght n) (ha : Good n d a) (hb : Good n d b) :
     Good n d (gmerge .set n a b).1 := aux_good_merge n d a b ha hb
 
-/-- `==` ⇔ same set of rows, under the invariant -/
-theorem eq_iff_same_rows (n d : Nat) (a b : Ght n) (ga : Good n d a) (gb : Good n d b) :
+/-- `==` ⇔ same set of rows, for all well-formed hash-set tries — including join outputs with
+empty children, COLT tries with `or_default` children and `forced` leaves -/
+theorem eq_iff_same_rows (n d : Nat) (a b : Ght n) (wa : Wf .set n d a) (wb : Wf .set n d b) :
     geq n a b = true ↔ ∀ x, x ∈ grows n a ↔ x ∈ grows n b :=
-  aux_geq_iff n d a b ga gb
+  aux_geq_iff n d a b wa wb
 
-/-- `partial_cmp` is the inclusion order of the sets of rows, under the invariant:
+/-- `partial_cmp` is the inclusion order of the sets of rows, for all well-formed hash-set tries:
 `Some(Equal)` ⇔ same rows, `Some(Less)` ⇔ strict subset, `Some(Greater)` ⇔ strict superset,
 `None` ⇔ incomparable (`cmpSpec`). -/
-theorem cmp_iff_subset (n d : Nat) (a b : Ght n) (ga : Good n d a) (gb : Good n d b) :
+theorem cmp_iff_subset (n d : Nat) (a b : Ght n) (wa : Wf .set n d a) (wb : Wf .set n d b) :
     gcmp n a b = cmpSpec (grows n a) (grows n b) :=
-  aux_gcmp_spec n d a b ga gb
+  aux_gcmp_spec n d a b wa wb
+
+/-- `==` and `partial_cmp` agree with each other and with `is_bot` (the Rust `PartialOrd` contract):
+`a == b ⇔ partial_cmp(a, b) == Some(Equal)`, and a trie without rows equals `default()` -/
+theorem eq_iff_cmp_equal (n d : Nat) (a b : Ght n) (wa : Wf .set n d a) (wb : Wf .set n d b) :
+    (geq n a b = true ↔ gcmp n a b = some .eq) ∧
+    (gisBot n a = true ↔ geq n a (gempty n) = true) := by
+  constructor
+  · rw [eq_iff_same_rows n d a b wa wb, cmp_iff_subset n d a b wa wb]
+    unfold cmpSpec
+    constructor
+    · intro h
+      rw [if_pos (fun x hx => (h x).mp hx), if_pos (fun x hx => (h x).mpr hx)]
+    · intro h
+      by_cases h1 : ∀ x ∈ grows n a, x ∈ grows n b
+      · by_cases h2 : ∀ x ∈ grows n b, x ∈ grows n a
+        · exact fun x => ⟨h1 x, h2 x⟩
+        · rw [if_pos h1, if_neg h2] at h; cases h
+      · rw [if_neg h1] at h; split at h <;> cases h
+  · rw [eq_iff_same_rows n d a (gempty n) wa (aux_wf_empty _ _ _), aux_isBot_iff, aux_grows_empty]
+    constructor
+    · intro h x; rw [h]
+    · intro h
+      cases hg : grows n a with
+      | nil => rfl
+      | cons r rs => exact absurd ((h r).mp (by rw [hg]; simp)) (by simp)
 
 /-! ## prefix lookups -/
 
@@ -156,7 +185,7 @@ theorem deep_join_is_relational_join (sk ska skb : Kind) (n : Nat) (a b : Ght n)
       (aux_take_eq_iff n ra rb (la ra hra) (lb rb hrb)).mp hc i (by omega), e⟩
 
 /-- the output of the deep join is a well-formed trie (so `contains`, `prefix_iter`, `get` … of
-this file apply to it), although it may carry empty children (F7). -/
+this file — comparison included — apply to it), although it may carry empty children. -/
 theorem deep_join_wf (k n d : Nat) (a b : Ght n) (ha : Wf .set n d a) (hb : Wf .set n d b)
     (la : ∀ r ∈ grows n a, d + n ≤ r.length) :
     Wf .set n d (deepJoin .set k n a b) :=
@@ -241,47 +270,54 @@ theorem cursor_node_rows (n : Nat) (p : List Key) (t : Ght n) :
     (match nodeAt n p t with | some ⟨j, c⟩ => grows j c | none => []) = subRows n p t :=
   aux_nodeAt_subRows n p t
 
-/-! ## what the code does *not* satisfy (witnesses replayed on the real code by the check) -/
+/-! ## what the code did *not* satisfy before the fix (witnesses replayed on the real code by the check) -/
 
-/-- F7: without `NoEmptyChild` the clause "`==`/`partial_cmp` agree with the set of rows" is
-false: the deep join of `{(1,1,7)}` and `{(1,2,8)}` holds no rows and is `is_bot`, yet it is
-`!=` the empty trie and compares `Greater`. -/
-theorem eq_cmp_empty_child_refuted :
+/-- F7 (fixed): as shipped, `==`/`partial_cmp` counted present-but-empty children: the deep join of
+`{(1,1,7)}` and `{(1,2,8)}` holds no rows and is `is_bot`, yet it was `!=` the empty trie and
+compared `Greater`.  The repaired code answers `==` and `Equal`. -/
+theorem eq_cmp_empty_child_refuted_before_fix :
     let a := gnewFrom .set 2 0 [[1, 1, 7]]
     let b := gnewFrom .set 2 0 [[1, 2, 8]]
     let j := deepJoin .set 2 2 a b
     grows 2 j = [] ∧ grows 2 (gempty 2) = [] ∧ gisBot 2 j = true ∧
-      geq 2 j (gempty 2) = false ∧ gcmp 2 j (gempty 2) = some .gt ∧
-      j = (Ght.ofKids [(1, Ght.ofKids [])] : Ght 2) := by
-  refine ⟨by decide, by decide, by decide, by decide, by decide, rfl⟩
+      geqBeforeFix 2 j (gempty 2) = false ∧ gcmpBeforeFix 2 j (gempty 2) = some .gt ∧
+      j = (Ght.ofKids [(1, Ght.ofKids [])] : Ght 2) ∧
+      geq 2 j (gempty 2) = true ∧ gcmp 2 j (gempty 2) = some .eq := by
+  refine ⟨by decide, by decide, by decide, by decide, by decide, rfl, by decide, by decide⟩
 
-/-- F7, as the negation of the unconditioned clause -/
-theorem eq_iff_same_rows_without_invariant_refuted :
+/-- F7, as the negation of the clause for the code as shipped -/
+theorem eq_iff_same_rows_refuted_before_fix :
     ¬ ∀ (a b : Ght 2), Wf .set 2 0 a → Wf .set 2 0 b →
-        (geq 2 a b = true ↔ ∀ x, x ∈ grows 2 a ↔ x ∈ grows 2 b) := by
+        (geqBeforeFix 2 a b = true ↔ ∀ x, x ∈ grows 2 a ↔ x ∈ grows 2 b) := by
   intro h
-  have hj : deepJoin .set 2 2 (gnewFrom .set 2 0 [[1, 1, 7]]) (gnewFrom .set 2 0 [[1, 2, 8]])
-      = (Ght.ofKids [(1, Ght.ofKids [])] : Ght 2) := by rfl
   have hw : Wf .set 2 0 (Ght.ofKids [(1, Ght.ofKids [])] : Ght 2) := by
     simp [Wf, keysOf, grows, lrows]
   have := h (Ght.ofKids [(1, Ght.ofKids [])] : Ght 2) (gempty 2) hw (aux_wf_empty _ _ _)
-  have e : geq 2 (Ght.ofKids [(1, Ght.ofKids [])] : Ght 2) (gempty 2) = false := by decide
+  have e : geqBeforeFix 2 (Ght.ofKids [(1, Ght.ofKids [])] : Ght 2) (gempty 2) = false := by decide
   have r1 : grows 2 (Ght.ofKids [(1, Ght.ofKids [])] : Ght 2) = [] := by decide
   have r2 : grows 2 (gempty 2) = [] := by decide
   rw [e, r1, r2] at this
   exact absurd (this.mpr (fun x => Iff.rfl)) (by simp)
 
-/-- F22: the derived `PartialEq` of a leaf looks at the `forced` flag: after `force_drain` an
-empty leaf is `!=` the default leaf although both hold no rows and `partial_cmp` says `Equal`. -/
-theorem eq_forced_leaf_refuted :
+/-- F22 (fixed): the derived `PartialEq` of a leaf looked at the `forced` flag: after `force_drain` an
+empty leaf was `!=` the default leaf although both hold no rows and `partial_cmp` says `Equal`. -/
+theorem eq_forced_leaf_refuted_before_fix :
     let l : Leaf := ⟨[[1, 2]], false⟩
     let l' := (forceDrain .set 0 l).1
-    l'.rows = Leaf.empty.rows ∧ Leaf.eq l' Leaf.empty = false ∧ Leaf.cmp l' Leaf.empty = some .eq := by
+    l'.rows = Leaf.empty.rows ∧ Leaf.eqBeforeFix l' Leaf.empty = false ∧ Leaf.cmp l' Leaf.empty = some .eq ∧
+      Leaf.eq l' Leaf.empty = true := by
   decide
 
 /-! ## non-vacuity -/
 
 example : Good 2 0 (gnewFrom .set 2 0 [[1, 1, 7], [1, 2, 8], [2, 1, 7]]) := good_new_from _ _ _
+/-- a well-formed trie with an empty child that is not `Good`: comparison still sees the rows only -/
+example : Wf .set 2 0 (Ght.ofKids [(1, Ght.ofKids []), (2, Ght.ofKids [(1, Ght.ofLeaf ⟨[[2, 1, 7]], true⟩)])] : Ght 2) ∧
+    geq 2 (Ght.ofKids [(1, Ght.ofKids []), (2, Ght.ofKids [(1, Ght.ofLeaf ⟨[[2, 1, 7]], true⟩)])] : Ght 2)
+      (gnewFrom .set 2 0 [[2, 1, 7]]) = true := by
+  constructor
+  · simp [Wf, keysOf, grows, lrows, headAt]
+  · decide
 example : grows 2 (gnewFrom .set 2 0 [[1, 1, 7], [1, 2, 8], [1, 1, 7]]) = [[1, 1, 7], [1, 2, 8]] := by decide
 example : gcmp 2 (gnewFrom .set 2 0 [[1, 1, 7]]) (gnewFrom .set 2 0 [[2, 1, 7]]) = none := by decide
 example : gcmp 2 (gnewFrom .set 2 0 [[1, 1, 7]]) (gnewFrom .set 2 0 [[1, 1, 7], [2, 1, 7]]) = some .lt := by decide
